@@ -83,22 +83,26 @@ def run(ctx):
         traces.append(t)
     # negative controls appended to shard 0: wrong seed, wrong pairing, and a digest that differs from the memo
     neg = []
-    grp, groups = [], []
-    for e in traces[0]:
-        if e["ev"] == "call":
-            grp = []
-        grp.append(e)
-        if e["ev"] == "return":
-            groups.append(grp)
-    fn = [g for g in groups if g[0]["refmode"] == "fn" and g[-1]["st"] == "ok" and len(g[0]["ex"]) >= 2]
-    if fn:
-        g = copy.deepcopy(fn[0]); g[0]["id"] = -1
-        k = [j for j, e in enumerate(g) if e["ev"] == "ref"][-1]; g[k]["seed"] += 1; neg += g
-        g = copy.deepcopy(fn[0]); g[0]["id"] = -2
-        k = [j for j, e in enumerate(g) if e["ev"] == "forward"][0]; g[k]["r"][0][0] += 1; neg += g
-        g = copy.deepcopy(fn[0]); g[0]["id"] = -3
-        g[-1]["dig"][0] = (g[-1]["dig"][0] + 1) % 1000; neg += g
-    traces[0] = traces[0] + neg
+    host = 0
+    for hk in range(shards):
+        grp, groups = [], []
+        for e in traces[hk]:
+            if e["ev"] == "call":
+                grp = []
+            grp.append(e)
+            if e["ev"] == "return":
+                groups.append(grp)
+        fn = [g for g in groups if g[0]["ev"] == "call" and g[0]["refmode"] == "fn" and g[-1]["st"] == "ok" and len(g[0]["ex"]) >= 2]
+        if fn:
+            host = hk
+            g = copy.deepcopy(fn[0]); g[0]["id"] = -1
+            k = [j for j, e in enumerate(g) if e["ev"] == "ref"][-1]; g[k]["seed"] += 1; neg += g
+            g = copy.deepcopy(fn[0]); g[0]["id"] = -2
+            k = [j for j, e in enumerate(g) if e["ev"] == "forward"][0]; g[k]["r"][0][0] += 1; neg += g
+            g = copy.deepcopy(fn[0]); g[0]["id"] = -3
+            g[-1]["dig"][0] = (g[-1]["dig"][0] + 1) % 1000; neg += g
+            break
+    traces[host] = traces[host] + neg
     bads = [None] * shards
     errs = []
 
